@@ -57,7 +57,7 @@ class Acc(object):
     def merge(self, o):
         self.counts.update(o.counts)
         self.nviol += o.nviol
-        have = Counter(v.get("_vkey") for v in self.violations)
+        have = Counter(v.get("_vkey") for v in self.violations) if o.violations else None
         for v in o.violations:
             if have[v.get("_vkey")] < 3 and len(self.violations) < 3000:
                 self.violations.append(v)
@@ -135,28 +135,33 @@ def _stage1(args):
 def explore_many(specs, nworkers=None, split_depth=7, time_budget_s=None, max_decisions=4000):
     """Explore several harness specs with one shared process pool.
     Returns a list of Acc, one per spec (same order)."""
-    from concurrent.futures import ProcessPoolExecutor, as_completed
+    from concurrent.futures import ProcessPoolExecutor
     if nworkers is None:
         nworkers = min(16, os.cpu_count() or 1)
     deadline = time.time() + time_budget_s if time_budget_s else None
     accs = [Acc() for _ in specs]
     ctx = multiprocessing.get_context("fork")
     with ProcessPoolExecutor(max_workers=nworkers, mp_context=ctx) as ex:
+        import queue
+        doneq = queue.Queue()
         pending = {}
+
+        def submit(fn, args, tag):
+            f = ex.submit(fn, args)
+            pending[f] = tag
+            f.add_done_callback(doneq.put)
+
         for i, spec in enumerate(specs):
-            f = ex.submit(_stage1, (spec, split_depth, deadline, max_decisions))
-            pending[f] = (i, 1)
+            submit(_stage1, (spec, split_depth, deadline, max_decisions), (i, 1))
         while pending:
-            for f in as_completed(list(pending)):
-                i, stage = pending.pop(f)
-                if stage == 1:
-                    acc, frontier = f.result()
-                    accs[i].merge(acc)
-                    if not acc.inconclusive:
-                        for p in frontier:
-                            g = ex.submit(_worker, (specs[i], p, deadline, max_decisions))
-                            pending[g] = (i, 2)
-                else:
-                    accs[i].merge(f.result())
-                break
+            f = doneq.get()
+            i, stage = pending.pop(f)
+            if stage == 1:
+                acc, frontier = f.result()
+                accs[i].merge(acc)
+                if not acc.inconclusive:
+                    for p in frontier:
+                        submit(_worker, (specs[i], p, deadline, max_decisions), (i, 2))
+            else:
+                accs[i].merge(f.result())
     return accs
